@@ -261,11 +261,52 @@ func TestC13(t *testing.T) {
 
 	var mu sync.Mutex
 	var active *c13Monitor
+	// etcd: every meta.KV call inside a store operation is a step of its own. The steps INSIDE AddWorkload (which
+	// records the instance and takes it out of the in-progress marker) are intercepted too: after each of its KV calls
+	// the bounds are evaluated from the calling goroutine - but only while no other boundary call is in flight, so
+	// that what is read is not a half-written state of somebody else.
+	kvSteps := !redis && w.cl.InstallKVShim()
+	adding := map[int64]bool{}    // goroutines inside store.AddWorkload
+	observing := map[int64]bool{} // goroutines inside an observation (their own KV reads are not steps)
+	var obsMu sync.Mutex
+	w.b.OnDone = func(ev sim.Event) {
+		mu.Lock()
+		m := active
+		if ev.Layer == "store" && ev.Op == "AddWorkload" {
+			delete(adding, ev.G)
+		}
+		inside := adding[ev.G] && !observing[ev.G]
+		if inside && ev.Layer == "kv" {
+			observing[ev.G] = true
+		}
+		mu.Unlock()
+		if !kvSteps || m == nil || ev.Layer != "kv" || !inside {
+			return
+		}
+		defer func() { mu.Lock(); delete(observing, ev.G); mu.Unlock() }()
+		if w.b.Inflight() != 1 {
+			rec.Count("kv_steps_inside_add_workload_not_observed_others_in_flight", 1)
+			return
+		}
+		obsMu.Lock()
+		v0 := m.violation
+		m.observe(sim.Event{Layer: "kv-step-inside-store.AddWorkload/after", Op: ev.Op, Arg: ev.Arg})
+		if w.b.Inflight() != 1 && v0 == "" && m.violation != "" {
+			m.violation, m.vkind = "", "" // somebody started meanwhile: the reading may be torn
+		} else {
+			rec.Count("kv_steps_inside_add_workload_observed", 1)
+		}
+		obsMu.Unlock()
+	}
 	w.b.OnCall = func(ev sim.Event) {
 		mu.Lock()
 		m := active
+		if ev.Layer == "store" && ev.Op == "AddWorkload" {
+			adding[ev.G] = true
+		}
+		skip := ev.Layer == "kv"
 		mu.Unlock()
-		if m == nil || ev.Layer == "lock" {
+		if m == nil || ev.Layer == "lock" || skip {
 			return
 		}
 		// the gate would make every boundary call wait for the ones in flight: the store writes that record the
@@ -275,7 +316,7 @@ func TestC13(t *testing.T) {
 			rec.Count("ungated_add_workload_calls/"+storeName, 1)
 			return
 		}
-		w.b.Quiesce(func() { m.observe(ev) })
+		w.b.Quiesce(func() { obsMu.Lock(); m.observe(ev); obsMu.Unlock() })
 	}
 
 	runOne := func(dc *deployCase, rebuild bool) {
